@@ -345,6 +345,10 @@ def atoms(alpha, family="calc"):
                 # counterfactual variables that differ only in their own value mark (anything keyed on text must keep it)
                 P((+A) @ C),
                 P((-A) @ C),
+                # a reciprocal and a fraction over a product: dividing one by the other sends a product and a literal one
+                # through Fraction.__truediv__ / Product.__mul__ (the flattening path of the canonicaliser)
+                One() / P(B),
+                P(A | B) / (P(B) * P(C | B)),
             ]
         return base
     if family == "print":
@@ -456,7 +460,10 @@ def menu(e, atom_list, tier, with_raw=True, public_only=False):
             oo = [w for v in o for w in own if w.name == v.name] + [v for v in o if all(w.name != v.name for w in own)]
             yield "chain_expand", f"chain_expand(e,ordering=[{on}])", (lambda oo=oo: chain_expand(e, ordering=oo)), ("id_markov",)
     if with_raw:
-        for i, b in enumerate(atom_list[:4]):
+        # raw constructors: the four simplest atoms and every composite one (a raw fraction of two fractions is the only
+        # way to hand the canonicaliser an un-flattened compound fraction)
+        raw_atoms = [(i, b) for i, b in enumerate(atom_list) if i < 4 or isinstance(b, (Fraction, Product))]
+        for i, b in raw_atoms:
             yield "raw_product", f"Product((e,atom{i}))", (lambda b=b: Product((e, b))), ("mul", b, False)
             yield "raw_product", f"Product((atom{i},e))", (lambda b=b: Product((b, e))), ("mul", b, True)
             if not isinstance(b, Zero):
